@@ -221,6 +221,15 @@ var registry = []Harness{
 	{Prop: "C16", Pkg: "nns", Func: "VerifC16MigrateNNS", Link: []string{"nns"}, Unwind: 100,
 		Quick: [][]int{{0}, {1}},
 		Bound: "LEGACY NNS storage (< 0.18.0) preset raw in the layout of the recorded testnet dump: TLD 'com' as an ordinary token with a 20-byte owner, 'a.com' with a symbolic expiration, SOA records and one TXT record with 3 symbolic bytes, symbolic price >= 1; param0 = 1: the TLD's owner also owns a.com; symbolic version 0.15.4 <= v < 0.18.0; then a record is added and a sibling name registered"},
+	{Prop: "C16", Pkg: "neofsid", Func: "VerifC16MigrateNeoFSID", Link: []string{"neofsid"},
+		Quick: [][]int{{0, 0}, {0, 1}, {0, 2}, {0, 3}, {0, 4}, {1, 0}, {2, 0}},
+		Bound: "NeoFSID storage of an older release preset raw: two owners (symbolic 25-byte ids) with two and one symbolic 33-byte keys, the contract hashes older releases stored, era param0 (0: v in [0.15.4,0.17.0) with the notary flag param1, 1: [0.17.0,0.19.0), 2: [0.19.0,current)), symbolic version inside the era; key(owner) for both owners and an unknown one, then addKey and removeKey on the migrated bindings"},
+	{Prop: "C16", Pkg: "reputation", Func: "VerifC16MigrateReputation", Link: []string{"reputation"},
+		Quick: [][]int{{0, 0}, {0, 1}, {0, 2}, {0, 3}, {0, 4}, {1, 0}},
+		Bound: "Reputation storage of an older release preset raw: two ids (symbolic epochs 1..127, symbolic peers) with two and one symbolic values and their counters, era param0 (0: v in [0.15.4,0.17.0) with the notary flag param1, 1: [0.17.0,current)), symbolic version inside the era; get / getByID / listByEpoch, then one more put for a migrated id"},
+	{Prop: "C16", Pkg: "audit", Func: "VerifC16MigrateAudit", Link: []string{"audit"},
+		Quick: [][]int{{0, 1}, {0, 2}, {1, 0}},
+		Bound: "Audit storage of an older release preset raw: two results of two Inner Ring members under their ids (symbolic epochs 1..127, container ids, tails), the Netmap hash older releases stored, era param0 (0: v in [0.15.4,0.17.0) with the notary flag false/true = param1 1/2 — Audit never collected votes, there are no ballots —, 1: [0.17.0,current)), symbolic version inside the era; get, list (which enumerates every storage key), listByEpoch, then one more put"},
 	{Prop: "C16", Pkg: "netmap", Func: "VerifC16MigrateNetmap", Link: []string{"netmap", "probe1", "probe2"},
 		Quick:    [][]int{{0, 0}, {0, 1}, {0, 2}, {0, 3}, {0, 4}, {0, 5}, {0, 6}, {0, 7}, {1, 0}, {1, 2}, {1, 4}, {1, 5}, {1, 6}, {2, 0}},
 		Thorough: [][]int{{0, 0}, {0, 1}, {0, 2}, {0, 3}, {0, 4}, {0, 5}, {0, 6}, {0, 7}, {1, 0}, {1, 1}, {1, 2}, {1, 3}, {1, 4}, {1, 5}, {1, 6}, {1, 7}, {2, 0}},
